@@ -79,6 +79,7 @@ THEOREMS = [
     "Verif.C07.kymo_times_refine",
     "Verif.C07.flat_tether_is_identity",
     "Verif.C07.visible_frames_resolve",
+    "Verif.C07.define_tether_calibrated",
 ]
 RULE = (
     "corpus (F2 inputs) + exhaustive small scope on real TIFF stacks of n<=6 frames of 4x5 pixels: every slice with "
@@ -267,9 +268,7 @@ def tether_ends(stack):
             ln.remove()
     if x.shape != (2,) or y.shape != (2,):
         raise RuntimeError(f"plot_tether drew a line of {x.shape} points")
-    if stack.pixelsize_um:  # calibrated stacks: image units -> pixels (none of the generated stacks is calibrated)
-        fx, fy = (float(v) for v in np.asarray(stack.pixelsize_um))
-        x, y = x / fx, y / fy
+    # calibrated stacks (stream "calibrated"): image units, as define_tether takes them; the model reports them likewise
     return [float(x[0]), float(y[0]), float(x[1]), float(y[1])]
 
 
@@ -642,7 +641,8 @@ def impl(case):
 # ------------------------------------------------------------------ model side
 
 
-def prog_tokens(prog):
+def prog_tokens(prog, spec=None):
+    nm = spec.get("pixelsize_nm") if spec else None
     toks = []
     for st in prog:
         k = st[0]
@@ -657,7 +657,10 @@ def prog_tokens(prog):
         elif k == "t":
             toks.append(f"t,{enc_bound_model(st[1])},{enc_bound_model(st[2])},{enc_opt(st[3])}")
         elif k == "T":
-            toks.append("T," + ",".join(enc_float(x) for x in st[1:5]))
+            if nm is not None:  # pixel-calibrated stack: the points are in um, the model divides by nm / 1000
+                toks.append("U," + enc_float(float(nm)) + "," + ",".join(enc_float(x) for x in st[1:5]))
+            else:
+                toks.append("T," + ",".join(enc_float(x) for x in st[1:5]))
         elif k == "k":
             toks.append(f"k,{int(st[1])}" + (f",{st[2]}" if len(st) > 2 else ""))
         else:
@@ -670,7 +673,7 @@ def run_line(spec, prog):
     legacy = "Pylake" in spec["software"] and spec["exposure"] is None
     return (
         f"c07.run {spec['h']} {spec['w']} {enc_list([t[0] for t in table])} {enc_list([t[1] for t in table])} "
-        f"{enc_list([t[2] for t in table])} {'T' if legacy else 'F'} {prog_tokens(prog)}"
+        f"{enc_list([t[2] for t in table])} {'T' if legacy else 'F'} {prog_tokens(prog, spec)}"
     ).rstrip()
 
 
@@ -924,7 +927,8 @@ def simulate(spec, prog):
         if len(r2) == 0 or len(c2) == 0:
             raise Expect("ValueError")
         if geo["mid"] is not None:
-            geo["mid"] = (geo["mid"][0] - (c2[0] - cols[0]), geo["mid"][1] - (r2[0] - rows[0]))
+            cal = float(spec["pixelsize_nm"]) / 1000 if spec.get("pixelsize_nm") else 1.0  # image units per pixel
+            geo["mid"] = (geo["mid"][0] - (c2[0] - cols[0]) * cal, geo["mid"][1] - (r2[0] - rows[0]) * cal)
         rows, cols = r2, c2
 
     def frames(item):
@@ -1810,6 +1814,40 @@ def cases(tier, rng):
         for a, b in itertools.product(strb, strb):
             if isinstance(a, dict) or isinstance(b, dict):
                 yield prog_case("time-exhaustive", tspec, pre + [["t", a, b, 2 if (a is None or b is None) else None]])
+
+    # ---- pixel-calibrated stacks: define_tether takes the points in um (divided by nm/1000 by the code), plot_tether
+    # reports the ends in um; crops / frame selections before and after, re-tethering
+    KC = 120 if quick else 1500
+    r = rng.fork("c07-calibrated")
+    for i in range(KC):
+        sub = r.fork(i)
+        nm = sub.choice([100.0, 72.5, 333.3, 1000.0, 64.0])
+        h, w, n = sub.randint(3, 7), sub.randint(4, 9), sub.randint(1, 6)
+        spec = bt.make_spec(files=(n,), h=h, w=w, colour=sub.choice(["grey", "grey", "rgb"]), pixelsize_nm=nm)
+        cal = nm / 1000
+        prog = []
+        cw, chh = w, h
+        if sub.chance(0.4):
+            prog.append(["s", sub.choice([None, 0, 1]), None, sub.choice([None, 2])])
+            if len(range(*slice(prog[0][1], None, prog[0][3]).indices(n))) < 1:
+                prog = []
+        if sub.chance(0.4) and w >= 5 and h >= 4:
+            ox, oy = sub.randint(0, 1), sub.randint(0, 1)
+            prog.append(["c", ox, None, oy, None])
+            cw, chh = w - ox, h - oy
+        x1, x2 = sub.uniform(0, cw) * cal, sub.uniform(0, cw) * cal
+        y1, y2 = sub.uniform(0, chh) * cal, sub.uniform(0, chh) * cal
+        if sub.chance(0.3):
+            y2 = y1
+            x1, x2 = min(x1, x2), max(x1, x2) + 0.5 * cal
+        if abs(x1 - x2) + abs(y1 - y2) < 0.5 * cal:
+            x2 = x1 + cal
+        prog.append(["T", x1, y1, x2, y2])
+        if sub.chance(0.4) and cw >= 4 and chh >= 3:
+            prog.append(["c", sub.choice([None, 1]), sub.choice([None, cw - 1]), sub.choice([None, 1]), None])
+        if sub.chance(0.2):
+            prog.append(["T", sub.uniform(0, 2) * cal, sub.uniform(0, 2) * cal, sub.uniform(2.5, 3.5) * cal, sub.uniform(0, 2) * cal])
+        yield prog_case("calibrated", spec, prog, subseed=i)
 
     # ---- to_kymo, exhaustive small scope: 3 frames of 4x5 pixels, every integer tether row / pair of end columns, every
     # half window in -1..2, a crop cutting 0..4 columns off the left AFTER the tether (left end outside: F20; both ends
